@@ -143,7 +143,7 @@ class Ctx:
         cmd = ["java"] + jopts + ["-cp", TLA_CP, "tlc2.TLC", "-workers", str(workers), "-metadir", meta,
                                     "-cleanup", "-noGenerateSpecTE", "-config", cfg_path]
         if sim:
-            cmd += ["-simulate", sim]
+            cmd += ["-simulate", sim, "-depth", "200", "-seed", str(self.seed)]
         cmd += list(extra) + [module + ".tla"]
         e = dict(os.environ)
         e.pop("JAVA_TOOL_OPTIONS", None)
